@@ -1,7 +1,7 @@
 (* C01 -- Whole-pipeline refactoring preserves program behaviour.
    Property theorems only; every proof is `exact <lemma>`; Print Assumptions under each.
 
-   WHAT THESE THEOREMS ARE ABOUT: the ORCHESTRATION of main.format_code (which stage runs, when, on what,
+   WHAT THESE THEOREMS ARE ABOUT: the ORCHESTRATION of main.format_code / main._format_code (which stage runs, when, on what,
    under which option), for arbitrary stage functions.  That every individual stage preserves behaviour is a
    HYPOTHESIS here (one per reachable stage kind; discharged rule by rule by C02 where a rule has a model, open
    otherwise).  The property's execution oracle is the deterministic sweep of harness/c01.py, which is not a proof. *)
@@ -155,6 +155,78 @@ Theorem T01_2_reachable_top :
     reachable_for src P stage valid indent_level n_multi o s = reachable n_multi (o_keep P o) false true.
 Proof. exact reachable_top. Qed.
 Print Assumptions T01_2_reachable_top.
+
+(* ---- through the wrapper main.format_code (repair 9438482: an unterminated text is formatted as _format_code(text + LF)
+        and one trailing LF is removed from the result).  The theorems above are about _format_code. *)
+
+(* T01.1 (wrapper): besides the stage premises, now stated for the terminated text, appending the last line's
+   terminator and removing one trailing LF must preserve the behaviour (true for Python programs; a hypothesis here). *)
+Theorem T01_1_outer_behaviour_preserved :
+  forall (src P : Type) (src_eqb : src -> src -> bool) (stage : kind -> option (ctx src P) -> src -> src)
+         (is_skip is_blank valid : src -> bool) (indent_level : src -> nat) (safe_preserve : P -> src -> P)
+         (n_multi max_passes : nat) (needs_nl : src -> bool) (add_nl strip_nl : src -> src)
+         (B : Type) (beh : src -> B) (o : opts P) (s : src),
+    (needs_nl s = true -> beh (add_nl s) = beh s) ->
+    (needs_nl s = true -> forall t, beh (strip_nl t) = beh t) ->
+    (forall k, In k (reachable_for src P stage valid indent_level n_multi o (inner_input src needs_nl add_nl s)) ->
+       forall c, ctxs src P stage valid indent_level safe_preserve o (inner_input src needs_nl add_nl s) c ->
+       forall t, beh (stage k c t) = beh t) ->
+    beh (format_code_outer src P src_eqb stage is_skip is_blank valid indent_level safe_preserve
+           n_multi max_passes needs_nl add_nl strip_nl o s) = beh s.
+Proof. exact outer_behaviour_preserved. Qed.
+Print Assumptions T01_1_outer_behaviour_preserved.
+
+Theorem T01_1_outer_relation_preserved :
+  forall (src P : Type) (src_eqb : src -> src -> bool) (stage : kind -> option (ctx src P) -> src -> src)
+         (is_skip is_blank valid : src -> bool) (indent_level : src -> nat) (safe_preserve : P -> src -> P)
+         (n_multi max_passes : nat) (needs_nl : src -> bool) (add_nl strip_nl : src -> src) (R : src -> src -> Prop),
+    (forall a, R a a) -> (forall a b c, R a b -> R b c -> R a c) ->
+    forall (o : opts P) (s : src),
+    (needs_nl s = true -> R s (add_nl s)) ->
+    (needs_nl s = true -> forall t, R t (strip_nl t)) ->
+    (forall k, In k (reachable_for src P stage valid indent_level n_multi o (inner_input src needs_nl add_nl s)) ->
+       okk src P stage R (ctxs src P stage valid indent_level safe_preserve o (inner_input src needs_nl add_nl s)) k) ->
+    R s (format_code_outer src P src_eqb stage is_skip is_blank valid indent_level safe_preserve
+           n_multi max_passes needs_nl add_nl strip_nl o s).
+Proof. exact outer_preserves. Qed.
+Print Assumptions T01_1_outer_relation_preserved.
+
+(* skip_file through the wrapper: the input comes back unchanged and no stage runs, provided removing the LF undoes
+   appending it *)
+Theorem T01_1_outer_exit_skip :
+  forall (src P : Type) (src_eqb : src -> src -> bool) (stage : kind -> option (ctx src P) -> src -> src)
+         (is_skip is_blank valid : src -> bool) (indent_level : src -> nat) (safe_preserve : P -> src -> P)
+         (n_multi max_passes : nat) (needs_nl : src -> bool) (add_nl strip_nl : src -> src) (o : opts P) (s : src),
+    is_skip (inner_input src needs_nl add_nl s) = true ->
+    (needs_nl s = true -> strip_nl (add_nl s) = s) ->
+    format_code_outer_traced src P src_eqb stage is_skip is_blank valid indent_level safe_preserve
+      n_multi max_passes needs_nl add_nl strip_nl o s = (s, []).
+Proof. exact outer_exit_skip. Qed.
+Print Assumptions T01_1_outer_exit_skip.
+
+(* T01.2 (wrapper): the wrapper runs exactly the stages _format_code runs on the (possibly terminated) text, so the
+   reachable set is exact for it too. *)
+Theorem T01_2_outer_trace_is_inner_trace :
+  forall (src P : Type) (src_eqb : src -> src -> bool) (stage : kind -> option (ctx src P) -> src -> src)
+         (is_skip is_blank valid : src -> bool) (indent_level : src -> nat) (safe_preserve : P -> src -> P)
+         (n_multi max_passes : nat) (needs_nl : src -> bool) (add_nl strip_nl : src -> src) (o : opts P) (s : src),
+    format_code_outer_trace src P src_eqb stage is_skip is_blank valid indent_level safe_preserve
+      n_multi max_passes needs_nl add_nl strip_nl o s
+    = format_code_trace src P src_eqb stage is_skip is_blank valid indent_level safe_preserve
+        n_multi max_passes o (inner_input src needs_nl add_nl s).
+Proof. exact outer_trace_eq. Qed.
+Print Assumptions T01_2_outer_trace_is_inner_trace.
+
+Theorem T01_2_outer_reachable_exact :
+  forall (src P : Type) (src_eqb : src -> src -> bool) (stage : kind -> option (ctx src P) -> src -> src)
+         (is_skip is_blank valid : src -> bool) (indent_level : src -> nat) (safe_preserve : P -> src -> P)
+         (n_multi : nat) (needs_nl : src -> bool) (add_nl strip_nl : src -> src) (o : opts P) (s : src),
+    exit_of src P stage is_skip is_blank valid (inner_input src needs_nl add_nl s) = NoExit ->
+    forall k, In k (format_code_outer_trace src P src_eqb stage is_skip is_blank valid indent_level safe_preserve
+                      n_multi MAX_FILE_PASSES needs_nl add_nl strip_nl o s)
+              <-> In k (reachable_for src P stage valid indent_level n_multi o (inner_input src needs_nl add_nl s)).
+Proof. exact outer_trace_exact_tables. Qed.
+Print Assumptions T01_2_outer_reachable_exact.
 
 (* not vacuous: an instance in which both history loops run several passes and the second one stops on a
    history hit that is not a fixpoint *)
